@@ -42,4 +42,36 @@ theorem jsonpath_callback_tie (buf : Str) (cap : Nat) (a : CbArg) :
       | none => simp [h1, h2, hn]
       | some b2 => cases h3 : capWrite b2 cap [']'] <;> simp [h1, h2, h3, hn]
 
+/-- the model's index target (written slots, capacity) as the slice the source fills: the written prefix followed by
+whatever the remaining slots hold -/
+def sliceOf (slots rest : List Nat) : SliceIt := (slots ++ rest, slots.length)
+
+/-- `usize -> T` for an index type that holds values up to `maxIdx` -/
+def tryIntoMax (maxIdx : Nat) (i : Nat) : Option Nat := if i ≤ maxIdx then some i else none
+
+/-- **The traversal callback of `Transcode for [T]`** (all integer slot types) as translated from node.rs is the model's
+`Target.cb` on index targets: it fails exactly when no slot is left or the index does not fit the slot type — then the
+slice is unchanged —, and otherwise writes the index into the next slot and nothing else. -/
+theorem slice_callback_tie (slots rest : List Nat) (maxIdx : Nat) (a : CbArg) :
+    (match Target.cb (.idx slots (slots.length + rest.length) maxIdx) a with
+     | some t =>
+       ∃ r', rest = r' ++ rest.drop 1 ∧ r'.length = 1 ∧
+         Slice.callback (tryIntoMax maxIdx) (sliceOf slots rest) a.index a.name a.len =
+           (sliceOf (slots ++ [a.index]) (rest.drop 1), .ok ()) ∧
+         t = .idx (slots ++ [a.index]) (slots.length + rest.length) maxIdx
+     | none =>
+       (Slice.callback (tryIntoMax maxIdx) (sliceOf slots rest) a.index a.name a.len).2 = .error () ∧
+       (Slice.callback (tryIntoMax maxIdx) (sliceOf slots rest) a.index a.name a.len).1.1 = slots ++ rest) := by
+  simp only [Target.cb, Slice.callback, sliceNext, sliceOf, sliceSet, tryIntoMax, List.length_append]
+  cases rest with
+  | nil => simp
+  | cons x xs =>
+    have h1 : slots.length < slots.length + (xs.length + 1) := by omega
+    simp only [List.length_cons, h1, ↓reduceIte, true_and, List.drop_succ_cons, List.drop_zero]
+    by_cases hi : a.index ≤ maxIdx
+    · simp only [hi, ↓reduceIte]
+      refine ⟨[x], by simp, by simp, ?_, by trivial⟩
+      simp [List.set_append_right]
+    · simp [hi]
+
 end MiniconfVerif.GenTie
